@@ -124,7 +124,7 @@ def run_unit(idx):
     unit = _UNITS[idx]
     t0 = time.time()
     rec = {"unit": unit.name, "kind": unit.kind, "qualname": unit.qualname, "obligations": [], "error": None,
-           "unsupported": None, "canary": None, "stats": {}}
+           "unsupported": None, "canary": None, "stats": {}, "incomplete": []}
     try:
         if unit.kind == "func":
             from pyvc.symex import Engine
@@ -146,6 +146,7 @@ def run_unit(idx):
                     break
             rec["canary"] = can
             rec["stats"] = eng.stats
+            rec["incomplete"] = list(eng.incomplete)
         elif unit.kind == "lemma":
             for ob in unit.fn():
                 solve(ob, second_solver=(_TIER == "thorough"))
